@@ -218,10 +218,11 @@ type Loader struct {
 	// dataBuffer holds the shared response tree and its concurrency guard.
 	dataBuffer *DataBuffer
 
-	// authorization is set for the loader serving the primary response when pre-fetch field
-	// authorization is enabled. It holds the up-front batch decisions that isFetchAuthorizedFromCache
-	// reads to skip fetches serving only denied fields. It is nil for defer-group loaders, whose
-	// denied fields are still nulled/errored during response resolution.
+	// authorization holds the request's field-authorization decisions. When pre-fetch field
+	// authorization is enabled it carries the up-front batch decisions that
+	// isFetchAuthorizedFromCache reads (in the prepare phase, under the dataBuffer lock) to skip
+	// fetches serving only denied fields. The loader of the primary response and the loaders of
+	// the defer groups share it, so deferred fetches obey the same skip rule.
 	authorization *FieldAuthorization
 
 	// errors accumulates fetch-time errors for this Loader instance.
